@@ -1078,6 +1078,15 @@ class TypedGen:
 				out.append(v)
 		return out
 
+	def import_from(self, module_name: str, other: 'TypedGen') -> str:
+		"""Make everything `other` defined available here as imported names; returns the import line."""
+		names = list(other.funcs) + list(other.classes) + list(other.enums)
+		self.funcs.update(other.funcs)
+		self.classes.update(other.classes)
+		self.enums.update(other.enums)
+		self.imported = True
+		return f'from {module_name} import ' + ', '.join(names)
+
 	def program(self, n_funcs: int | None = None, imports: list[str] | None = None) -> Program:
 		r = self.r
 		self.lines = []
@@ -1085,8 +1094,9 @@ class TypedGen:
 		for imp in imports or []:
 			head.append(imp)
 		self.lines.extend(head + ['', ''])
-		self.helper_defs()
-		if self.o['lambdas']:
+		if not getattr(self, 'imported', False):
+			self.helper_defs()
+		if self.o['lambdas'] and 'apply1' not in self.funcs:
 			self.emit('def apply1(fn: Callable[[int], int], v: int) -> int:')
 			self.emit('\treturn fn(v)')
 			self.emit('')
